@@ -61,6 +61,16 @@ def polish(t):
     return "%s.%s" % (k, polish(t[1]))
 
 
+def recursive_groups(cmtext):
+    """number of recursive DTDScanner::scanChildren calls for this text: parenthesised groups that are not the first
+    item of their parent (those are opened by the loop at the top of the function)"""
+    n = 0
+    for i, ch in enumerate(cmtext):
+        if ch == "(" and i > 0 and cmtext[i - 1] in ",|":
+            n += 1
+    return n
+
+
 def nleaves(t):
     if t[0] == "L":
         return 1
@@ -245,6 +255,13 @@ def gen_cases(ctx):
                 add("wide-mutant", m, tx, d, mutate(rng, w, d[:3] + d[-2:]))
             add("wide-empty", m, tx, d, [])
             add("wide-last", m, tx, d, [n - 1])
+    # -- 6. many parenthesised groups at nesting depth 2: DTDScanner's CONTENTSPEC_DEPTH_LIMIT (1000) is about nesting,
+    #       a content model with more than 1000 sibling groups is legal (finding F26)
+    for g in ([1000, 1002] if not thorough else [999, 1000, 1001, 1002, 1003, 1500]):
+        t = ("S", [("L", 0)] + [("S", [("L", 1)]) for _ in range(g)])        # (n0,(n1),(n1),...)
+        m, tx = "K:" + polish(t), text(t)
+        add("many-groups", m, tx, [0, 1], [0] + [1] * g)
+        add("many-groups", m, tx, [0, 1], [0] + [1] * (g - 1))
     return cases
 
 
@@ -633,6 +650,16 @@ def coq_crosscheck(ctx, picked):
     return rc == 0, out
 
 
+def read_xmlerrs():
+    """numeric value of the XMLErrs codes the check names (read from /repo's XMLErrorCodes.hpp)"""
+    import re
+    src = open(os.path.join(V.REPO, "src", "xercesc", "framework", "XMLErrorCodes.hpp")).read()
+    out = {}
+    for m in re.finditer(r"\b([A-Za-z_]\w*)\s*=\s*(\d+)", src):
+        out[m.group(1)] = int(m.group(2))
+    return out
+
+
 def run_bin(binpath, lines, timeout=3000):
     p = subprocess.run([binpath], input=("\n".join(lines) + "\n").encode(), stdout=subprocess.PIPE,
                        stderr=subprocess.PIPE, timeout=timeout)
@@ -713,6 +740,8 @@ def run(ctx):
     divergences = []
     spec_viol = []
     nvalid = 0
+    f26 = []
+    xerrs = read_xmlerrs()
     for (kind, rq, m, d, w), i, mo, sp in zip(cases, impl, model, spec):
         ctx.count()
         kinds[kind] = kinds.get(kind, 0) + 1
@@ -720,10 +749,13 @@ def run(ctx):
         if "MODEL_FUEL" in mo:
             kinds["model-fuel"] = kinds.get("model-fuel", 0) + 1
             continue
-        if i != mo:
-            divergences.append((kind, rq, i, mo, sp))
         valid = sp == "valid 1"
         nvalid += valid
+        if i != mo and recursive_groups(rq.split()[4]) > 1000 and i.endswith("e=XF%d" % xerrs.get("UnterminatedDOCTYPE", -1)):
+            f26.append((rq, i, mo, sp))           # finding F26: fatal error for > 1000 sibling groups
+            continue
+        if i != mo:
+            divergences.append((kind, rq, i, mo, sp))
         if impl_says_valid(i) != valid or impl_has_fatal(i):
             spec_viol.append((kind, rq, i, mo, sp))
     ctx.coverage["traces_validated_against_impl"] = len(lines)
@@ -732,6 +764,17 @@ def run(ctx):
     for k in (7, len(cases) // 2, len(cases) - 1):
         if 0 <= k < len(cases):
             ctx.sample({"kind": cases[k][0], "request": cases[k][1], "impl": impl[k], "model": model[k], "spec": spec[k]})
+    if f26:
+        if ctx.find_known("F26"):
+            ctx.known_finding("F26", "a content model with more than 1000 parenthesised sibling groups (nesting depth 2) is "
+                              "rejected with the fatal error UnterminatedDOCTYPE: DTDScanner::scanChildren never decrements "
+                              "its depth counter (witness (n0,(n1) x 1002)); %d generated cases; repaired by "
+                              "fixes/C07-cm-group-limit.patch" % len(f26))
+        else:
+            rq, i, mo, sp = f26[0]
+            ctx.violation("F26-group-limit", {"what": "a legal DTD whose content model has more than 1000 sibling groups "
+                                              "(nesting depth 2) makes the parser report a FATAL error for a valid document",
+                                              "request": rq, "impl": i, "model": mo, "spec": sp})
     for kind, rq, i, mo, sp in spec_viol[:5]:
         ctx.violation("spec", {"request": rq, "impl": i, "model": mo, "spec": sp, "kind": kind,
                                "what": "the implementation's verdict (no error reported <-> valid; never a fatal error) "
